@@ -242,6 +242,39 @@ def run(ctx):
     for cname in ctx.configs():
         check_lines(ctx, ctx.program(cname), "" if cname == "MAX" else "[%s]" % cname)
         check_span_expansion(ctx, ctx.program(cname), "" if cname == "MAX" else "[%s]" % cname)
+    # F7: a span recorded with an instruction is a byte range of the template being compiled.  Spans travel on the code
+    # generator's span stack, which is a pooled thread-local vector: (a) the take / recycle helpers clear it (shared with
+    # C15.U4), and (b) every construct pops what it pushed (the `spans` counter of the C05.B1 typestate is neutral for
+    # every compile_* function), so nothing is left for a sub-generator or for the next compilation on the thread.
+    from .c15 import check_buffer_pools
+    progm = ctx.program("MAX")
+    if progm.has_fn("minijinja::compiler::codegen::take_span_stack_buffer"):
+        check_buffer_pools(ctx, progm, prefix="C14.F7")
+    from ..brackets import Analysis, State, GEN
+    viol = []
+
+    def _rep(rule, inst, ok, detail, where):
+        if not ok:
+            viol.append((rule, inst, detail, where))
+    an = Analysis(progm, _rep)
+    nsp = 0
+    for g in sorted(k for k, f in progm.fns.items() if k.startswith(GEN + "::") and f.kind != "closure"):
+        s_ = an.summary(g)
+        nm = g.split("::")[-1]
+        if s_ is not None and (nm.startswith("compile_") or nm == "finish"):
+            nsp += 1
+            ctx.ob("C14.F7.construct-leaves-no-span-behind", nm, s_.c.get("spans", 0) == 0,
+                   "%s leaves the span stack %+d deep: the stale span (a byte range) is attached to later instructions on the "
+                   "same line and - through the pooled buffer - can reach another template" % (nm, s_.c.get("spans", 0)),
+                   progm.fn(g).loc)
+    # recursive compile_* functions are assumed neutral by the summaries and verified separately; joins must agree
+    for (rule_, inst_, detail_, where_) in viol:
+        if "spans" in detail_:
+            ctx.ob("C14.F7.construct-leaves-no-span-behind", inst_.split("::")[-1], False,
+                   "the span stack is not balanced here (%s): the stale span (a byte range) is attached to later "
+                   "instructions on the same line and - through the pooled buffer - can reach another template" % detail_, where_)
+    ctx.floor("C14.F7 compile_* functions checked for span balance", nsp, 12)
+    ctx.count("C14.F7 span stack operations seen", getattr(an, "span_ops", 0))
     ctx.sample({"Err exits": len(errs), "process_err calls": len(perr)})
 
 
